@@ -56,6 +56,7 @@ func init() {
 		"bytes.Contains":                   icBytesContains,
 		"bytes.Equal":                      icBytesEqual,
 		"fmt.Sprintf":                      icSprintf,
+		"fmt.Appendf":                      icAppendf,
 		"fmt.Errorf":                       icErrorf,
 		"fmt.Sprint":                       icSprint,
 		"fmt.Printf":                       icNop,
@@ -865,6 +866,16 @@ func icSprintf(e *Engine, fr *frame, fn *ssa.Function, args []Value, c *ssa.Call
 		panic(e.unsupported("symbolic format string"))
 	}
 	return e.sprintf(f, e.variadic(args[1])), true
+}
+
+// fmt.Appendf(b, format, a...) = append(b, Sprintf(format, a...)...)
+func icAppendf(e *Engine, fr *frame, fn *ssa.Function, args []Value, c *ssa.CallCommon) (Value, bool) {
+	f, ok := e.goString(args[1])
+	if !ok {
+		panic(e.unsupported("symbolic format string"))
+	}
+	str := e.sprintf(f, e.variadic(args[2]))
+	return e.appendOp(args[0].(*Slice), str, types.NewSlice(types.Typ[types.Byte])), true
 }
 
 func icSprint(e *Engine, fr *frame, fn *ssa.Function, args []Value, c *ssa.CallCommon) (Value, bool) {
